@@ -61,8 +61,9 @@ CHECKS = {
         ref="3/C06"),
     "C07": dict(
         technique="stateless model checking of thread interleavings on the real code: cooperative scheduler, iterative preemption bounding, DFS with prefix replay, conflict-based point reduction",
-        text="12 harnesses of 2-3 real threads validating concurrently (shared coercing schema, pass/fail lazy, polars DataFrame vs LazyFrame, polars vs pandas in a "
-             "user config_context, shared column, cold MODEL_CACHE, three threads, shared regex schema, frame-level dtype override). Scheduling points sit before every "
+        text="15 harnesses of 2-3 real threads validating concurrently (shared coercing schema, pass/fail lazy, polars DataFrame vs LazyFrame, polars vs pandas in a "
+             "user config_context, shared column, cold MODEL_CACHE, three threads, shared regex schema, frame-level dtype override, polars shared coercing / frame-dtype schema, "
+             "unrelated pandas vs polars schemas). Module- and class-level state that a validation writes is discovered automatically (snapshot diff around warm validations) and its writers are traced. Scheduling points sit before every "
              "attribute access of instrumented schema/component/check/config objects and every line of the functions touching module globals; a point is offered only "
              "where it conflicts with an access another thread may make (read/write sets grown to a fixpoint). All schedules with <= 1 preemption (quick; 2 for "
              "race-free harnesses) / <= 2 (thorough) are executed; every thread's outcome must equal its solo outcome and configuration + schema fingerprints must be restored.",
@@ -77,14 +78,14 @@ CHECKS = {
         ref="3/C08"),
     "C09": dict(
         technique="exhaustive enumeration of the live dtype registries of all four engines plus a finite parameter alphabet; all ordered pairs for check()",
-        text="For numpy, pandas(+pyarrow), polars and pyspark engines every registered spelling and every generated parametrisation is resolved; idempotence with equal hashes, "
+        text="For numpy, pandas(+pyarrow), polars and pyspark engines every registered spelling and every generated parametrisation is resolved; idempotence with equal hashes, the resolved type denotes the native parametrised dtype it came from, "
              "equality of registered equivalents, str round trip for primitive types (numpy/pandas/pyspark), self-recognition, and absence of cross-kind / signedness / width "
              "recognition over all ordered pairs of distinct resolved types.",
         note="Trusted: classification of a DataType into (kind, signedness, bit width) through the abstract pandera.dtypes hierarchy.",
         ref="3/C09"),
     "C10": dict(
         technique="exhaustive enumeration of containers over a value pool up to a length bound for every coercible dtype; self-referential (singleton) oracle",
-        text="24 pandas data types (numpy, nullable-extension, pyarrow, datetime, timedelta, category, string, object) and 8 polars types x every container of length <= 2 "
+        text="25 pandas data types (numpy, nullable-extension, pyarrow, datetime, timedelta, category incl. a parametrised Category, string, object) and 8 polars types x every container of length <= 2 "
              "(thorough 3; polars one longer) over an 11-value mixed pool: success => same length/labels, own check passes, values equal the singleton coercions, idempotent; "
              "failure => ParserError whose failure cases are exactly the elements whose singleton coercion fails.",
         note="Trusted: 'individually coercible' is defined by the implementation's behaviour on singleton containers (differential, no expected values).",
@@ -99,7 +100,7 @@ CHECKS = {
     "C12": dict(
         technique="exhaustive enumeration of schemas within k feature edits of 4 bases; round-trip oracle on a projection of the serialisable attributes",
         text="Every schema within <=2 (thorough 3) edits over the serialisable vocabulary (flags, every built-in check with options, titles/descriptions/names with quotes, colons "
-             "and YAML keywords, strict='filter', unique as str/list, frame-level dtype and checks, Index/MultiIndex) is written to YAML, JSON and script and read back: the "
+             "and YAML keywords, strict='filter', unique as str/list, frame-level dtype and checks, Index/MultiIndex, timedelta components with zero-duration arguments, one Check instance shared by two components) is written to YAML, JSON and script and read back: the "
              "projection onto the attributes listed in the property must be identical, to_yaml/to_json must be a fixpoint, and verdicts on probe frames must agree.",
         note="Trusted: projection function lists exactly the property's attributes; exec of the generated script.",
         ref="3/C12"),
@@ -107,14 +108,15 @@ CHECKS = {
         technique="stateless choice-point exploration of hypothesis' primitive draws (scripted PrimitiveProvider): all answer sequences within a deviation bound, prefix replay",
         text="For ~540 schemas (3 main dtypes x check chains of length <= 2 in both orders x nullable/unique x SeriesSchema/Column/Index, 19 further dtypes, 12 DataFrameSchemas with "
              "index / MultiIndex / regex / joint-unique / frame-level checks, a MultiIndex) and sizes 0..2 (thorough 0..3) the real schema.strategy() is executed under a provider that answers "
-             "every primitive hypothesis draw from a finite menu (bounds, shrink target, +-1, boundary, both booleans, shortest strings): the default path plus every sequence with <= 1 "
-             "(thorough 2) non-default answers. Every example produced must pass schema.validate and have the requested size; runs that produce no example are counted, not judged.",
+             "every primitive hypothesis draw from a finite menu (bounds, shrink target, +-1, boundary, both booleans, shortest strings): the default path plus every sequence with <= 2 "
+             "(thorough 3) non-default answers for Series/Index/Column-level schemas (1 / 2 for frames), from two default paths for nullable schemas, plus 6 cold-start cases run in a fresh interpreter. Every example produced must pass schema.validate and have the requested size; runs that produce no example are counted, not judged.",
         note="Trusted: the answer menus (values outside them are not explored); hypothesis' ConjectureData/BuildContext internals as the seam.",
         ref="3/C13"),
     "C15": dict(
         technique="explicit-state BFS over schema-transformation programs (state = fingerprint of the derived schema), commuting-square / inverse-law / attribute-preservation oracles on every transition",
         text="From 4 seed schemas whose components carry every attribute at a non-default value (pandas rich, MultiIndex, regex; polars), every program of <= 2 (thorough 3) operations out of "
              "add/remove/select/rename/update_column(s) (each updatable attribute)/set_index (drop, append)/reset_index (level, drop), with arguments from the schema's own names plus an absent one, "
+             "the named attribute must take the requested value, "
              "is applied; programs reaching equal schemas are merged. Every transition: receiver fingerprint unchanged and not aliased, every attribute not named by the operation preserved "
              "(attribute by attribute), accept(S,D) => accept(op(S), op(D)) on the probe frame, inverse laws, invalid requests raise SchemaInitError/ValueError.",
         note="Trusted: structural fingerprint as attribute equality; the frame-side counterpart of each schema operation (mc/props/c15.py:_apply_frame).",
@@ -133,7 +135,7 @@ CHECKS = {
         text="6 predicates x every vector of length <= 3 (thorough 4) over {1,2,3,-1,null} x 3 index kinds x {SeriesSchema, Column, Index, DataFrame} levels: element_wise == "
              "vectorised map; ignore_na hides nulls from the function and never fails them (and ignore_na=False shows them); n_failure_cases never changes the verdict and "
              "reports a subset; raise_warning never raises and warns iff the plain check fails (incl. raising functions); groupby hands over exactly the groups (str / list / "
-             "callable, restricted by groups); aliases equal and behave as their canonical checks; frame-level ignore_na; polars ignore_na / raise_warning.",
+             "callable, restricted by groups; object and categorical grouping columns incl. an empty group); ignore_na relations also on the nullable-extension Int64 representation; aliases equal and behave as their canonical checks; frame-level ignore_na; polars ignore_na / raise_warning.",
         note="Trusted: nothing but the relations themselves (no expected values).",
         ref="3/C19"),
     "C20": dict(
@@ -147,15 +149,15 @@ CHECKS = {
         technique="exhaustive enumeration of all columns over per-dtype extreme-value pools up to a length bound x index alphabet",
         text="12 value pools (int64 incl. +-(2**53+1) and min/max, float64 incl. +-inf/-0.0/NaN, bool, str, mixed object, datetime at the ns bounds, tz-aware datetime, "
              "timedelta, categorical with an unused category, Int64, uint8, float32) x every column of length <= 3 (thorough 4) x {default, named, string, datetime, MultiIndex} "
-             "index, as a frame column and as a Series: infer_schema(D) must accept D and return equal values, inferred ge/le bounds must be D's exact min/max in D's own "
+             "index, plus the enumerated column itself used as Index / MultiIndex level / level of a sliced frame, as a frame column and as a Series: infer_schema(D) must accept D and return equal values, inferred ge/le bounds must be D's exact min/max in D's own "
              "dtype, and the YAML / JSON / script round trips of the inferred schema must give the same verdict.",
         note="Trusted: pandas' own min/max and assert_*_equal (values, not dtype) as the notion of 'unchanged values'.",
         ref="3/C14"),
     "C17": dict(
         technique="exhaustive product of signature shape x designation x call shape x options x frame per decorator against a reference wrapper",
-        text="12 generated signature shapes (plain, extra positional, defaults, *args, **kwargs, defaulted frame, method, classmethod, staticmethod, async, pre-wrapped) x "
+        text="12 generated signature shapes (plain, extra positional, defaults, *args, **kwargs, defaulted frame, method, classmethod, staticmethod, async, pre-wrapped; for check_types every shape also as a coroutine) x "
              "obj_getter None/int/str x positional/keyword/mixed/default-not-passed calls x {no option, head, tail, lazy, head+lazy} x 5 frames for check_input; tuple/list/dict/"
-             "callable outputs x sync/async for check_output; check_io with all frame pairs; check_types over 9 annotation shapes: the instrumented body must run iff the "
+             "callable outputs incl. negative and middle getters x sync/async for check_output and check_io(out=...), the whole returned container compared; check_io with all frame pairs; check_types over 9 annotation shapes: the instrumented body must run iff the "
              "designated input validates (with the given options), receive the parsed object, and the wrapper must return/raise what the reference wrapper does.",
         note="Trusted: the reference wrapper (inspect.signature binding + schema.validate with the same options).",
         ref="3/C17"),
@@ -163,7 +165,7 @@ CHECKS = {
         technique="explicit-state BFS over config_context histories + exhaustive enumeration of environment settings and depth decomposition",
         text="BFS over all enter/exit/exit-by-exception/probe histories of the real config_context up to nesting 3 (thorough 4), each "
              "transition replayed on the implementation and compared with a stack model; the full product of documented environment "
-             "variable values each in a fresh interpreter; SAD <=> SO and DO over the shared schema x data space.",
+             "variable values each in a fresh interpreter, with every config_context depth override probed on top of each; SAD <=> SO and DO over the shared schema x data space.",
         note="Trusted: stack model of save/override/restore, docs/source/configuration.md as the oracle for env vars and depth defaults.",
         ref="3/C18"),
 }
